@@ -162,7 +162,11 @@ class Lexer:
             raise JSSyntaxError("Unterminated string literal", self.line, self.column)
 
         self._advance()  # Skip closing quote
-        return "".join(result)
+        text = "".join(result)
+        if any("\ud800" <= ch <= "\udbff" for ch in text):
+            # \uD83D\uDE00 spells one character, as the surrogate pair does in JavaScript
+            text = text.encode("utf-16", "surrogatepass").decode("utf-16", "surrogatepass")
+        return text
 
     def _read_number(self) -> float | int:
         """Read a number literal."""
